@@ -225,6 +225,36 @@ func buildVGraph(fn *ssa.Function, c *Contract) *vgraph {
 			}
 		}
 	}
+	if c != nil && c.Opts["tree"] != "" {
+		// path-sensitive mode: unfold the DAG into a tree (no ite-merging of values and heaps at joins);
+		// loop heads with invariants stay shared (their state is havocked anyway)
+		count := 0
+		memo := map[*vnode]*vnode{}
+		var unfold func(n *vnode) *vnode
+		unfold = func(n *vnode) *vnode {
+			if n.cut {
+				if m, ok := memo[n]; ok {
+					return m
+				}
+			}
+			count++
+			if count > 20000 {
+				bail("path explosion unfolding %s", fn)
+			}
+			cp := &vnode{b: n.b, copy: n.copy, kind: n.kind, loop: n.loop, cut: n.cut}
+			if n.cut {
+				memo[n] = cp
+			}
+			for _, e := range n.succs {
+				to := unfold(e.to)
+				ne := &vedge{from: cp, to: to, predIdx: e.predIdx, succIdx: e.succIdx}
+				cp.succs = append(cp.succs, ne)
+				to.preds = append(to.preds, ne)
+			}
+			return cp
+		}
+		entry = unfold(entry)
+	}
 	// topological order (graph is acyclic by construction)
 	g := &vgraph{entry: entry, loops: loops}
 	state := map[*vnode]int{}
